@@ -380,6 +380,9 @@ def close_once(chk: Check) -> None:
             ok &= cfg.must_pass(e, [cfg.exit], lambda m: m is t, edge_ok=no_exc)
         true_side = cfg.reachable([s for s, l in t.succ if l == 'true'], include_src=True, edge_ok=no_exc)
         ok &= all(n.id in true_side for n in term)
+        # ... and on EVERY path from there (no further condition nested inside: a terminal state entered from a terminal one -- the
+        # failed-transition path -- is terminated too, else it is never closed)
+        ok &= all(cfg.must_pass(s_, [cfg.exit], lambda m: m in term, edge_ok=no_exc) for s_, l_ in t.succ if l_ == 'true')
         atoms_false = ff.cond_atoms(t.ast.test, False)
         atoms_true = ff.cond_atoms(t.ast.test, True)
         ok &= ('T', 'self._state.is_terminal()') in atoms_true
